@@ -52,7 +52,7 @@ type AppSpec struct {
 type Action struct {
 	At      string `json:"at"`    // apphash | offer | apply | after-apply
 	Call    int    `json:"call"`  // call number of that kind; -1 = every call of that kind except the first
-	Kind    string `json:"kind"`  // race (Count peers deliver chunk cur+Rel at the same moment, each with its own bytes, by concurrent Reactor.ReceiveEnvelope calls; Rel = 99: one such batch per index) | push | push-async (hold does not wait for the delivery) | stop | readv | flush | reconnect (leave if still connected, come back under the same node key, advertise Snap)
+	Kind    string `json:"kind"`  // await-fetched (wait until every chunk index has been requested once and every answer but the canary's is in) | race (Count peers deliver chunk cur+Rel at the same moment, each with its own bytes, by concurrent Reactor.ReceiveEnvelope calls; Rel = 99: one such batch per index) | push | push-async (hold does not wait for the delivery) | stop | readv | flush | reconnect (leave if still connected, come back under the same node key, advertise Snap)
 	Peer    int    `json:"peer"`  // liar index; -1 = sender of the chunk of this call, -2 = sender most recently rejected by the app, -3 = some other honest connected peer
 	Rel     int    `json:"rel"`   // push: index = current index + rel (mod chunks)
 	Bytes   string `json:"bytes"` // push: right | wrong
@@ -81,6 +81,11 @@ type Scenario struct {
 	// request for a chunk stays unanswered so that the re-sent request is answered by two peers at once
 	ChunkBody int  `json:"chunk_body_bytes,omitempty"`
 	RaceRereq bool `json:"race_on_rerequest,omitempty"`
+	// refetch family: the scenario must end in a verified restore (liveness oracles apply); Canary: nobody
+	// answers requests for the last chunk index until every refetched index has been requested again, so
+	// that the fetcher waiting for it keeps re-requesting it every ChunkRequestTimeout: a logical clock
+	Liveness bool `json:"liveness,omitempty"`
+	Canary   bool `json:"canary,omitempty"`
 }
 
 // content is the true content of chunk i of the (only) genuine snapshot at
@@ -124,7 +129,7 @@ func has(ss []string, s string) bool {
 	return false
 }
 
-var recipeNames = []string{"plain", "s18", "dup", "blacklist", "infolie", "retrysnap", "vanish", "spfault", "many", "noise", "fooled", "comeback", "orphan", "race"}
+var recipeNames = []string{"plain", "s18", "dup", "blacklist", "infolie", "retrysnap", "vanish", "spfault", "many", "noise", "fooled", "comeback", "orphan", "race", "refetch"}
 
 // genScenario draws scenario number idx.
 func genScenario(r *rand.Rand, verifSeed, sub int64, stream string, idx int) *Scenario {
@@ -139,7 +144,7 @@ func genScenario(r *rand.Rand, verifSeed, sub int64, stream string, idx int) *Sc
 	}
 	// recipes: the first few cases walk through the list so that every tier sees each one
 	nrec := 1 + r.Intn(3)
-	if recipeNames[idx%len(recipeNames)] == "orphan" {
+	if p := recipeNames[idx%len(recipeNames)]; p == "orphan" || p == "refetch" {
 		nrec = 1 // a fixed cast of peers: kept free of other recipes when it is the primary one
 	}
 	if recipeNames[idx%len(recipeNames)] == "race" {
@@ -158,6 +163,9 @@ func genScenario(r *rand.Rand, verifSeed, sub int64, stream string, idx int) *Sc
 	tip := uint64(s.ChainLen)
 	s1 := 6 + uint64(r.Intn(int(tip)-2-6+1)) // 6 .. tip-2
 	n1 := uint32(2 + r.Intn(5))
+	if recipeNames[idx%len(recipeNames)] == "refetch" {
+		n1 = uint32(1 + (idx/len(recipeNames))%8) // 1 .. 8 chunks
+	}
 	addTrue := func(h uint64, f uint32, n uint32) int {
 		s.Catalog = append(s.Catalog, SnapSpec{Height: h, Format: f, Chunks: n, Kind: "true",
 			Hash: hexs(contentHash(sub, s.ChunkBody, h, f, n)), Meta: hexs([]byte(fmt.Sprintf("m%d", r.Intn(100))))})
@@ -471,6 +479,57 @@ func genScenario(r *rand.Rand, verifSeed, sub int64, stream string, idx int) *Sc
 		}
 		// ... and a chunk that is present but not yet applied
 		s.Actions = append(s.Actions, Action{At: "apply", Call: r.Intn(int(n1)), Kind: "race", Rel: 1, Count: k})
+	}
+	if rc("refetch") && s.Recipes[0] == "refetch" {
+		// the app asks for a refetch (and / or rejects a sender) with ACCEPT or RETRY at a moment when every
+		// chunk index has been allocated and requested once; honest peers stay connected: the refetched
+		// chunks must be requested again, delivered, applied, and the restore must complete
+		s.Liveness = true
+		s.Discovery = "gate0"
+		s.ReqTimeout = 250
+		s.App.SmartReject = false
+		s.App.BadLimit = 30
+		s.Peers = nil
+		for p := 0; p < 2+r.Intn(2); p++ {
+			s.Peers = append(s.Peers, PeerSpec{Default: "honest", Adverts: [][]int{{main}}})
+		}
+		np = len(s.Peers)
+		s.Catalog = s.Catalog[:1] // only the one snapshot: nothing else to fall back to
+		n := int(n1)
+		s.Canary = s.Fetchers >= 2 && n >= 2 && r.Intn(3) != 0
+		var k int // the call that carries the verdict
+		switch {
+		case s.Canary:
+			k = []int{n - 2, n - 2, 0, r.Intn(n - 1)}[r.Intn(4)] // second-to-last, first, any applied one
+		default:
+			k = []int{n - 1, n - 1, n - 2, 0, r.Intn(n)}[r.Intn(5)] // last, second-to-last, first, any
+			if k < 0 {
+				k = 0
+			}
+		}
+		ov := ApplyOverride{Result: []string{"ACCEPT", "RETRY"}[r.Intn(2)]}
+		switch r.Intn(5) {
+		case 0:
+			ov.Refetch = []int{0}
+		case 1:
+			ov.Refetch = []int{-1}
+		case 2:
+			ov.Refetch = []int{0, -1}
+		case 3:
+			ov.Refetch = []int{-r.Intn(n)}
+			ov.RejectSelf = true
+		case 4:
+			ov.RejectSelf = true // unapplied chunks of that sender are discarded and must be fetched again
+		}
+		if k == 0 {
+			for i := range ov.Refetch {
+				if ov.Refetch[i] < 0 {
+					ov.Refetch[i] = 0
+				}
+			}
+		}
+		s.App.ApplyScript[k] = ov
+		s.Actions = append(s.Actions, Action{At: "apply", Call: k, Kind: "await-fetched"})
 	}
 	if rc("spfault") {
 		m := []string{"AppHash", "State", "Commit"}[r.Intn(3)]
